@@ -43,6 +43,32 @@ type simReader struct {
 
 var errInjected = errors.New("simulated I/O error")
 
+// simSeekReader is a simReader that is also an io.Seeker, like an *os.File positioned somewhere inside the data.
+type simSeekReader struct{ *simReader }
+
+func (r simSeekReader) Seek(offset int64, whence int) (int64, error) {
+	simrt.Yield("reader.Seek")
+	var abs int64
+	switch whence {
+	case io.SeekStart:
+		abs = offset
+	case io.SeekCurrent:
+		abs = int64(r.pos) + offset
+	case io.SeekEnd:
+		abs = int64(len(r.data)) + offset
+	default:
+		return 0, errors.New("simSeekReader: invalid whence")
+	}
+	if abs < 0 {
+		return 0, errors.New("simSeekReader: negative position")
+	}
+	r.pos = int(abs)
+	if r.pos > len(r.data) {
+		r.pos = len(r.data)
+	}
+	return abs, nil
+}
+
 func (r *simReader) Read(p []byte) (int, error) {
 	simrt.Yield("reader.Read")
 	end := len(r.data)
@@ -101,6 +127,9 @@ type scanCfg struct {
 	stopAfter    int
 	stopMode     int
 	cancelDelayQ int64
+	// startAt > 0: data is the whole file and the scanner is handed a seekable reader positioned at startAt
+	// (the way a caller resumes from a file); offsets in cut/errAt stay absolute
+	startAt int
 	// twin, when set, is a second, independent scan (own reader, own scanner, own consumer goroutine "consumer2")
 	// whose lifetime overlaps this one's inside the same simulated process
 	twin *scanCfg
@@ -167,7 +196,12 @@ func runScan(t *testing.T, c scanCfg) (res scanRes) {
 	res.sim = simu.Run(t, cfg, func(sim *simrt.Sim, root context.Context) {
 		ctx, cancel := context.WithCancel(root)
 		defer cancel()
-		sc := osmpbf.New(ctx, rd, c.procs)
+		var src io.Reader = rd
+		if c.startAt > 0 {
+			rd.pos = c.startAt
+			src = simSeekReader{rd}
+		}
+		sc := osmpbf.New(ctx, src, c.procs)
 		if c.stopMode == 2 {
 			d := time.Duration(c.cancelDelayQ * simrt.Q)
 			simrt.GoNamed("canceller", func() {
